@@ -251,6 +251,9 @@ Section Tree.
       destruct (children_tree items IH Ht Hnd' cp [] _ _ _ _ _ Hm' EC) as [Ha Hl].
       cbn [erase]. fold (eitems items). fold (eitems (build erase k items')).
       rewrite rebuild_node, build_erase, Ha. cbn [eitems map app]. split; [reflexivity|].
+      assert (Hex : forall l e, match e with EVisit _ _ _ => False | _ => True end -> evisits (l ++ [e]) = evisits l).
+      { intros l e He. unfold evisits. rewrite flat_map_app. destruct e; try contradiction; cbn; apply app_nil_r. }
+      rewrite (Hex lg1 (EExit p ky id (shallow_items items')) I).
       rewrite Hl.
       assert (Hev : evisits (lg ++ [EEnter p ky (RObj id) (in_view defs (ONode id k items))]) = evisits lg).
       { unfold evisits. rewrite flat_map_app. cbn [flat_map app]. apply app_nil_r. }
